@@ -115,7 +115,7 @@ func regionRaw(r *Run, n int) {
 //   - typed values: negative and unsigned integers of several widths, floats, booleans, a counter, bytes, and
 //     fields of an inspected struct go through every letter and named modifier of the property (Go vs model:
 //     the escaper sees the value's text, whatever its Go type).
-func escRuns(r *Run, letters []string, mods []string) {
+func escRuns(r *Run, letters []string, mods []string, regionKind string) {
 	var cases []*RCase
 	ins := []string{"a-b", `x"y\`, "<&>'", "é z/?=%", "-15"}
 	for li, l := range letters {
@@ -169,7 +169,62 @@ func escRuns(r *Run, letters []string, mods []string) {
 			r.Dist["long-run"]++
 		}
 	}
-	typed := []SOp{{Kind: "static", Name: "v", Val: int64(-15)}, {Kind: "static", Name: "v", Val: int8(-3)}, {Kind: "static", Name: "v", Val: int64(math.MinInt64)},
+	// print-tag pipelines in which a modifier written WITHOUT an argument list follows something that left a numeric
+	// first argument behind (another modifier of the chain, an earlier tag, a letter run), in the long and the short name
+	alias := map[string]string{"jsonEscape": "je", "jsonQuote": "jq", "htmlEscape": "he", "attrEscape": "ae", "cssEscape": "ce", "jsEscape": "jse", "urlEncode": "ue", "linkEscape": "le"}
+	for _, m0 := range mods {
+		for _, m := range []string{m0, alias[m0]} {
+			if m == "" {
+				continue
+			}
+			for _, src := range []string{`{%= v|default(0)|` + m + ` %}`, `{%= w|default(0) %}|{%= v|` + m + ` %}`, `{%` + letters[0] + letters[0] + `= w %}|{%= v|` + m + ` %}|{%= v|` + m + `|` + m + ` %}`,
+				`{% if lenGt0(w) %}{%= v|` + m + ` %}{% endif %}`, `{%= v|default(2)|` + m + `() %}`} {
+				c := &RCase{Tpls: []TplDef{{Key: "main", Src: src, KeepFmt: true}}, Meta: map[string]any{"print-pipeline": src}}
+				c.Ops = []SOp{{Kind: "static", Name: "v", Val: `a b&c<d>"e'/f?g=%-`}, {Kind: "static", Name: "w", Val: "x y"}, {Kind: "render", Key: "main"}, {Kind: "render", Key: "main"}}
+				cases = append(cases, c)
+				r.Dist["print-pipeline"]++
+			}
+		}
+	}
+	// a letter directive with prefix and suffix inside each of the three regions (the value comes out of the modifier's
+	// buffer, the prefix goes through the region's escaper before it)
+	for _, l := range letters {
+		for _, reg := range []string{"jsonquote", "htmlescape", "urlencode"} {
+			src := "{% " + reg + " %}{%" + l + "= v pfx <b> sfx </b> %}|{%" + l + l + "= v prefix \"p\" %}{% end" + reg + " %}"
+			c := &RCase{Tpls: []TplDef{{Key: "main", Src: src, KeepFmt: true}}, Meta: map[string]any{"letter-in-region": src}}
+			c.Ops = []SOp{{Kind: "static", Name: "v", Val: `a b&c<d>"e'/f`}, {Kind: "render", Key: "main"}, {Kind: "render", Key: "main"}}
+			cases = append(cases, c)
+			r.Dist["letter-in-region"]++
+		}
+	}
+	// the same modifiers in the pipeline of a ctx tag (a separate copy of the print tag's pipeline), after modifiers and
+	// tags that leave a numeric first argument behind
+	for _, m := range mods {
+		for _, src := range []string{`{% ctx e = v|default("0")|` + m + ` %}[{%= e %}]`, `{%` + letters[0] + letters[0] + `= w %}|{% ctx e = v|` + m + ` %}[{%= e %}]`,
+			`{%= w|default(2) %}|{% ctx e = v|` + m + ` %}[{%= e %}]{% ctx e2 = nope|default("3")|` + m + `|` + m + ` %}[{%= e2 %}]`} {
+			c := &RCase{Tpls: []TplDef{{Key: "main", Src: src, KeepFmt: true}}, Meta: map[string]any{"ctx-pipeline": src}}
+			c.Ops = []SOp{{Kind: "static", Name: "v", Val: `a b&c<d>"e'/f?g=%`}, {Kind: "static", Name: "w", Val: "x y"}, {Kind: "render", Key: "main"}, {Kind: "render", Key: "main"}}
+			cases = append(cases, c)
+			r.Dist["ctx-pipeline"]++
+		}
+	}
+	// values of several KiB inside the property's region (the escaper then works on a chunk that is large relative to
+	// what the context's buffers hold), first thing on a new context; and small values in nested regions
+	if regionKind != "" {
+		open_, close_ := "{% "+regionKind+" %}", "{% end"+regionKind+" %}"
+		for _, n := range []int{600, 4100, 9000, 70000} {
+			unit := "q\"uo\\te <&> 'x' /?= "
+			big := strings.Repeat(unit, n/len(unit)+1)[:n]
+			for _, src := range []string{open_ + "{%= big %}" + close_, "a" + open_ + "[{%= big pfx <p> sfx </p> %}]" + open_ + "{%= big %}" + close_ + close_ + "z"} {
+				c := &RCase{Tpls: []TplDef{{Key: "main", Src: src, KeepFmt: true}}, Meta: map[string]any{"big-value-in-region": n}}
+				c.Ops = []SOp{{Kind: "static", Name: "big", Val: big}, {Kind: "render", Key: "main"}, {Kind: "render", Key: "main"}}
+				cases = append(cases, c)
+				r.Dist["big-value-in-region"]++
+			}
+		}
+	}
+	typed := []SOp{{Kind: "static", Name: "v", Val: math.Inf(1)}, {Kind: "static", Name: "v", Val: math.Inf(-1)}, {Kind: "static", Name: "v", Val: math.NaN()}, {Kind: "static", Name: "v", Val: 1e21},
+		{Kind: "static", Name: "v", Val: int64(-15)}, {Kind: "static", Name: "v", Val: int8(-3)}, {Kind: "static", Name: "v", Val: int64(math.MinInt64)},
 		{Kind: "static", Name: "v", Val: uint64(7)}, {Kind: "static", Name: "v", Val: -0.5}, {Kind: "static", Name: "v", Val: 1e-7}, {Kind: "static", Name: "v", Val: true},
 		{Kind: "counter", Name: "v", Val: -4}, {Kind: "bytes", Name: "v", Val: []byte("-1 <")}, {Kind: "static", Name: "v", Val: []byte("-2 \"")}}
 	u := UserSpec{Id: "-7", Name: "n-m", Status: -42, Ustate: 3, Cost: -1.25}
